@@ -77,6 +77,13 @@ def expand(acc, item, tier, seed):
             for k, m in bad:
                 viol(k, m)
             if changed:
+                # the new contents must show through every read view before the state is put back (a view that lags behind
+                # the store -- a stale rendering -- is invisible once the store equals the rendering again)
+                for vreq in rig.views_of(req):
+                    acc.count("transitions")
+                    acc.count("post_write_views")
+                    for k, m in rig.step(vreq):
+                        viol("view-after-write:" + k, m)
                 if closed:
                     if TS.representable(after):
                         acc.succ.add((cfgkey, TS.norm_state(after)))
@@ -134,6 +141,8 @@ def guards(acc, ctx):
     for k in ("wt:changed", "wf:changed", "sas:changed", "rd:same", "rf:same", "gas:same"):
         if not acc.outcomes.get(k):
             g.append("outcome %s never observed" % k)
+    if acc.counters.get("post_write_views", 0) < 1000:
+        g.append("fewer than 1000 read views taken straight after a write")
     if not acc.counters.get("probe_successors"):
         g.append("no cross-type write was ever accepted")
     return g
